@@ -22,6 +22,14 @@ def entStr (e : Nat × Nat) : String := s!"{e.1}:{e.2}"
 def viewLine (i : Nat) (v : NodeView) : String :=
   joinSp ([s!"s {i} {roleStr v.role} {v.term} {optStr v.votedFor} {v.commit} {v.lastApplied} L"] ++ v.log.map entStr)
 
+/-- the leader bookkeeping `_next_index` / `_match_index` of node `i` about its peers (by peer id,
+    self left out).  Not an observable of the Spec: it is compared with the implementation only,
+    so that a divergence of the replication bookkeeping is seen at the step where it arises. -/
+def idxLine (n i : Nat) (x : Node) : String :=
+  let ps := peers n i
+  joinSp ([s!"x {i} N"] ++ ps.map (fun p => toString (x.nextIndex.getD p 1))
+          ++ ["M"] ++ ps.map (fun p => toString (x.matchIndex.getD p 0)))
+
 def bodyStr : Body → String
   | .rv t c li lt => s!"rv {t} {c} {li} {lt}"
   | .vr t g f => s!"vr {t} {showBool g} {f}"
@@ -59,7 +67,7 @@ def hasView : Act → Bool
 def stepLines (s' : St) (o : StepOut) (a : Act) : List String :=
   let t := tgt o
   [actLine a]
-  ++ (if hasView a && o.target.isSome then [viewLine t (viewOf (s'.nodes t))] else [])
+  ++ (if hasView a && o.target.isSome then [viewLine t (viewOf (s'.nodes t)), idxLine s'.n t (s'.nodes t)] else [])
   ++ o.apps.map (fun p => s!"a {t} {p.1} {p.2.1.id} {resStr p.2.2}")
   ++ o.ress.map (fun p => s!"r {t} {p.1} {p.2.1} {resStr p.2.2}")
   ++ o.sent.map envLine
